@@ -235,4 +235,73 @@ Tiny(k) ==
     [] k = "XR" -> { MkXR(<< XrB("rrt") >>), MkXR(<< XrB("lrle"), XrB("unk") >>) }
     [] k = "RAW" -> { RawOf(199, 3, Ramp(4, 50)) }
 TinyAll == UNION { Tiny(k) : k \in AllKinds }
+
+\* ---- values at, just below and just above every wire limit (C08) ------------
+LostVals == { << 0, 255, 255, 255 >>, << 1, 0, 0, 0 >>, << 1, 0, 0, 1 >>, << 1, 255, 255, 255 >>, << 2, 0, 0, 0 >>, << 255, 255, 255, 255 >> }
+TextLens == {254, 255, 256, 300}
+FloatLimits == { [s |-> 1, e |-> 0, f |-> 0], [s |-> 1, e |-> 0, f |-> 1], [s |-> 1, e |-> 127, f |-> 0], [s |-> 1, e |-> 254, f |-> 8388607],
+                 [s |-> 1, e |-> 255, f |-> 0], [s |-> 0, e |-> 254, f |-> 8388607], [s |-> 0, e |-> 0, f |-> 1] }
+\* a TWCC value with one delta (at position pos of n received packets) replaced
+TwccWithDelta(n, pos, t, ticks) ==
+  MkTWCC(n, << Rl(t, n) >>, [i \in 1..n |-> IF i = pos THEN Dl(t, ticks) ELSE Dl(t, 10 + i)], FALSE)
+LimitDom ==
+  { [BaseSR EXCEPT !.reports = RBs(n)] : n \in {30, 31, 32, 33} }
+  \cup { [BaseRR EXCEPT !.reports = RBs(n)] : n \in {30, 31, 32, 33} }
+  \cup { [BaseSR EXCEPT !.reports = << [BaseRB EXCEPT !.lost = x] >>] : x \in LostVals }
+  \cup { [BaseRR EXCEPT !.reports = << RBn(1), [BaseRB EXCEPT !.lost = x] >>] : x \in LostVals }
+  \cup { [k |-> "SDES", chunks |-> [i \in 1..n |-> Chunk1(i, << Item(1, 2) >>)]] : n \in {30, 31, 32} }
+  \cup { [k |-> "SDES", chunks |-> << Chunk1(1, << Item(1, n) >>) >>] : n \in TextLens }
+  \cup { [k |-> "SDES", chunks |-> << Chunk1(1, << Item(2, 3), Item(t, 3) >>) >>] : t \in {0, 1} }
+  \cup { [k |-> "SDES", chunks |-> << Chunk1(1, << Item(0, 0) >>) >>] }
+  \cup { [k |-> "BYE", srcs |-> [i \in 1..n |-> << i, 9, 8, i >>], reason |-> << >>] : n \in {30, 31, 32} }
+  \cup { [BaseBYE EXCEPT !.reason = Ramp(n, 64)] : n \in TextLens }
+  \cup { [BaseAPP EXCEPT !.st = s] : s \in {30, 31, 32, 33, 255} }
+  \cup { [BaseAPP EXCEPT !.name = Ramp(n, 64)] : n \in {0, 3, 4, 5} }
+  \cup { [BaseREMB EXCEPT !.ssrcs = [i \in 1..n |-> << i % 256, 5, 6, i \div 256 >>]] : n \in {254, 255, 256, 257, 512} }
+  \cup { [BaseREMB EXCEPT !.br = x] : x \in FloatLimits }
+  \cup { [BaseCCFB EXCEPT !.blocks = << CcBlock(D4(5), 7, [i \in 1..n |-> Mb(TRUE, 0, i % 8192)]) >>] : n \in {16383, 16384, 16385} }
+  \cup { TwccWithDelta(3, pos, 1, t) : pos \in 1..3, t \in {-1, 0, 255, 256, 300} }
+  \cup { TwccWithDelta(3, pos, 2, t) : pos \in 1..3, t \in {-32769, -32768, 32767, 32768, 70000} }
+  \cup { [MkTWCC(1, << Rl(1, 1) >>, << Dl(1, 7) >>, FALSE) EXCEPT !.hdr.c = c] : c \in {32, 63} }
+
+\* ---- values whose alternative encodings are enumerated (C04) --------------------
+VarDom ==
+  Vary(BaseREMB, "br", { [s |-> 0, e |-> e, f |-> f] : e \in {127, 128, 140, 146, 150, 170, 207}, f \in {0, 4194304, 1193024} })
+  \cup { [BaseAPP EXCEPT !.data = Ramp(n, 32)] : n \in 0..5 }
+  \cup { [BaseFIR EXCEPT !.fir = [i \in 1..n |-> Fir(<< i, 3, 2, i >>, i)]] : n \in 1..3 }
+  \cup { [k |-> "BYE", srcs |-> [i \in 1..n |-> << i, 9, 8, i >>], reason |-> << >>] : n \in {0, 1, 2, 31} }
+  \cup { [BaseCCFB EXCEPT !.blocks = << CcBlock(D4(5), 258, ms) >>] :
+           ms \in { << Mb(FALSE, 0, 0), Mb(TRUE, 1, 2) >>, << Mb(TRUE, 1, 2), Mb(FALSE, 0, 0), Mb(FALSE, 0, 0), Mb(TRUE, 0, 0) >>, << Mb(FALSE, 0, 0), Mb(FALSE, 0, 0) >> } }
+  \cup { MkXR(<< b >>) : b \in { XrB(x) : x \in XrKinds } }
+  \cup { MkXR(<< XrB("voip"), XrB("ss"), XrB("lrle") >>), MkXR(<< XrB("rrt"), XrB("dlrr"), XrB("prt"), XrB("unk") >>) }
+\* minimal SR/RR/SDES/BYE values whose count-inflated encodings must be rejected
+InflateDom ==
+  { [BaseSR EXCEPT !.reports = RBs(n)] : n \in {0, 1, 2, 30} }
+  \cup { [BaseRR EXCEPT !.reports = RBs(n)] : n \in {0, 1, 2, 30} }
+  \cup { [k |-> "SDES", chunks |-> [i \in 1..n |-> Chunk1(i, << Item(1, i % 7) >>)]] : n \in {0, 1, 2, 30} }
+  \cup { [k |-> "BYE", srcs |-> [i \in 1..n |-> << i, 9, 8, i >>], reason |-> << >>] : n \in {0, 1, 2, 30} }
+
+\* ---- frames for the datagram machine (C06) and the dispatch sweep (C07) ----------
+FirstOf(S) == CHOOSE x \in S : TRUE
+ValidFrames ==
+  { EncPacket({}, FirstOf(Tiny(k))) : k \in AllKinds }
+  \cup { EncPacket({}, [BaseRR EXCEPT !.ext = Ramp(8, 3)]), EncPacket({}, [BaseSR EXCEPT !.ext = Ramp(4, 3)]),
+         EncPacket({}, MkXR(<< XrB("lrle"), XrB("unk") >>)), EncPacket({}, RawOf(205, 3, Ramp(8, 50))) }
+MalformedFrames ==
+  { << 128, 200, 0, 1, 1, 2, 3, 4 >>,                                     \* framed SR too short for its sender info
+    << 130, 201, 0, 1, 1, 2, 3, 4 >>,                                     \* RR whose count claims two blocks
+    << 129, 205, 0, 2, 1, 2, 3, 4, 5, 6, 7, 8 >>,                         \* NACK without FCI
+    << 65, 200, 0, 1, 1, 2, 3, 4 >>,                                      \* version 1
+    << 129, 203, 0, 0 >> }                                                \* BYE claiming a source it does not hold
+TailJunk ==
+  { << 128 >>, << 128, 200, 0 >>, << 129, 206, 0, 2, 1, 2, 3, 4 >>,       \* PLI cut after 8 of 12 octets
+    << 128, 200, 255, 255 >> }                                            \* header announcing 262144 octets
+DispatchPTs(all) == IF all THEN 0..255 ELSE {0, 1, 72, 127, 128, 191, 192, 193, 194, 195, 196, 197, 198, 199, 200, 201, 202, 203, 204, 205, 206, 207, 208, 209, 210, 223, 254, 255}
+NearestKind(pt, c) ==
+  IF Kind({}, pt, c) # "RAW" THEN Kind({}, pt, c)
+  ELSE IF pt = 205 THEN "NACK" ELSE IF pt = 206 THEN "PLI" ELSE "SR"
+DispatchBodies(pt, c) ==
+  { << >>, Zeros(8), Fill(8, 255), From(EncPacket({}, FirstOf(Tiny(NearestKind(pt, c)))), 4) }
+DispatchFrame(pt, c, body) == EncHdr(FALSE, c, pt, Len(body) \div 4) \o body
+
 =============================================================================
